@@ -224,7 +224,18 @@ func (in *Interp) runPath(sess *smt.Session, cfg ExploreConfig, prefix []int64) 
 			if cfg.sampleSlot() {
 				func() {
 					defer func() { recover() }()
-					if p.checkFull(nil) == smt.Sat {
+					// the validation model must lie outside every known-finding
+					// region that was hit on this path: inside it the assertion is
+					// known to fail and the native run would (rightly) fail too
+					var outside *smt.Term
+					for _, pred := range p.knownHit {
+						if outside == nil {
+							outside = smt.Not(pred)
+						} else {
+							outside = smt.And(outside, smt.Not(pred))
+						}
+					}
+					if p.checkFull(outside) == smt.Sat {
 						p.res.EndModel = p.model()
 					}
 				}()
